@@ -296,11 +296,11 @@ check("C34",
 )
 
 check("C49",
-    pkg={"C49.stop": "e2e", "C49.sched": "nebula", "C49.query": "nebula"}, engine="D-live + C-component", scenarios=["C49.stop", "C49.sched", "C49.query"], scenario_weight={"C49.sched": 20, "C49.query": 3}, gomaxprocs=4,
+    pkg={"C49.stop": "e2e", "C49.sched": "nebula", "C49.query": "nebula", "C49.replies": "nebula"}, engine="D-live + C-component", scenarios=["C49.stop", "C49.sched", "C49.query", "C49.replies"], scenario_weight={"C49.sched": 20, "C49.query": 3, "C49.replies": 3}, gomaxprocs=4,
     quick=tier(400, 45, shrink_s=20, recheck=0), thorough=tier(40000, 1500, shrink_s=60, recheck=0),
     technique="deterministic-schedule simulation of live nodes: 2-4 real nebula instances in one synctest bubble driven by a seeded stimulus/fault schedule in which Control.Stop is injected at tape-chosen points (before Start, while handshaking, with live or relayed tunnels, in the same burst as a reload or other control calls, twice concurrently, followed or not by a restart); oracles on Stop/Wait return, device and socket closure, and the goroutines left in the bubble",
     rule="one run = 2-4 live nodes for 3-13 s (thorough: 5-45 s) of simulated time with stop-heavy stimulus mix; every node is stopped by the end; distinct = distinct (topology, stimulus-kind set, delivery) abstract hash; non-trivial = at least one Stop hit a node that held pending or established tunnels",
-    level_text="Seeded search over stop points: for every stopped node Control.Stop has returned by the next quiescence, Control.Wait returns within 5 s of simulated time, the tun is closed, the socket swallows writes, State is Stopped; after all nodes are stopped and 90 s passed no goroutine other than the driver remains in the bubble (any goroutine, whoever started it); a Stop that blocks on a lock forever is caught by the real-time watchdog (class hang). Evidence, not proof. C49.sched (component, package nebula): the delayed-work scheduler behind Punchy with queue sizes 1-64, 0-200 items with 0-2 s delays, its worker fast, slow or absent, and its context cancelled at a tape-chosen instant; 10 s later no goroutine of the bubble may remain (a timer that fires after the stop must not wait for a worker that is gone). C49.query (engine A node in the state right after Stop: context cancelled, no lighthouse query worker): with handshakes.query_buffer 1-4 and more pending handshakes than that due for their lighthouse re-query in one timer tick, the tick — which the handshake manager finishes before it notices the cancellation — must return.",
+    level_text="Seeded search over stop points: for every stopped node Control.Stop has returned by the next quiescence, Control.Wait returns within 5 s of simulated time, the tun is closed, the socket swallows writes, State is Stopped; after all nodes are stopped and 90 s passed no goroutine other than the driver remains in the bubble (any goroutine, whoever started it); a Stop that blocks on a lock forever is caught by the real-time watchdog (class hang). Evidence, not proof. C49.sched (component, package nebula): the delayed-work scheduler behind Punchy with queue sizes 1-64, 0-200 items with 0-2 s delays, its worker fast, slow or absent, and its context cancelled at a tape-chosen instant; 10 s later no goroutine of the bubble may remain (a timer that fires after the stop must not wait for a worker that is gone). C49.query (engine A node in the state right after Stop: context cancelled, no lighthouse query worker): with handshakes.query_buffer 1-4 and more pending handshakes than that due for their lighthouse re-query in one timer tick, the tick — which the handshake manager finishes before it notices the cancellation — must return. C49.replies (engine A node with a real tunnel to its lighthouse, handshakes.trigger_buffer 1-4): more authentic HostQueryReply messages than the handshake trigger queue holds, some handled while the manager still drains the queue and the rest after the stop point (nobody drains), each delivered by a reader goroutine of its own; every delivery must return (a reader that waits for the stopped manager outlives Stop).",
     level_note="Trusted: synctest's goroutine accounting (runtime.Stack bubble labels), the driver. Socket closure is observed through the test double (a closed TesterConn discards injected packets). ssh/stats/dns listeners are not configured.",
     real=D_REAL, stub=D_STUB,
     assumptions=["goroutine order inside a burst is chosen by the Go runtime (GOMAXPROCS=4), not by the tape", "routines=1"],
